@@ -210,7 +210,7 @@ def run(ctx):
             ctx.fail(section, "%s: %s" % (what, bad[0]), case, known_finding=known)
 
     # (A)
-    n_a = 350 if quick else 20000
+    n_a = 700 if quick else 20000
     ctx.bound("(A) order_gfa: up to %d generated chain rGFAs (1-3 chromosomes, backbone 2-15 nodes, 0-9 ears, tips, inverted links, self "
               "links; S/L tags from a pool and random well-formed tags of all SAM types, 0-3 other records sprinkled in, lines shuffled in "
               "half of the files, BO/NO pre-existing in 1/5) x {--by-chrom, complete} x {--with-sequence, without} x one random "
@@ -235,7 +235,7 @@ def run(ctx):
             break
 
     # (B)
-    n_b = 1500 if quick else 100000
+    n_b = 3000 if quick else 100000
     ctx.bound("(B) load/write: up to %d arbitrary GFAs of 1-7 segments (4 id styles, '*' sequences, 0-6 tags per S line, BO/NO/SN/SO "
               "present or not), 0-16 links (all four orientation combinations, self links, parallel links on different sides, either "
               "spelling, 0-3 tags, overlaps 0M..250M), S/L lines in order, shuffled or L first, other record types interleaved; "
